@@ -8,7 +8,7 @@ check('C01', 'proof',
       "Every path is additionally cross-checked natively with floats.",
       "deductive: sidecar contracts + VC generation by symbolic execution of the real functions, z3 discharge, native replay", "DESIGN.md 4/C01")
 check('C09', 'proof',
-      "Mode U: 64 sparse kernels (48 SparseVector incl. unary ones, 16 SparseLogicalVector; the + - * / kernels for scalar/sparse/array operands and their in-place forms, ==, !=, >, <, >=, <= kernels incl. "
+      "Mode U: 70 sparse kernels (54 SparseVector incl. unary ones, six queries and reductions (negative_keys, negative_index, positive_index, nonzero_keys, any, all), 16 SparseLogicalVector; the + - * / kernels for scalar/sparse/array operands and their in-place forms, ==, !=, >, <, >=, <= kernels incl. "
       "exec-template expansions) are verified against their contracts (dense image = operator on dense images with length-1 broadcasting, rep_ok of the "
       "result, frame, ValueError exactly on shape mismatch) for vectors of ARBITRARY size: VCs are generated from the AST of the real source on every run "
       "(pointwise loop summaries, no unrolling) and discharged by z3; counter-models are replayed on the real kernel. Mode S: the public operator dispatch "
